@@ -164,8 +164,8 @@ def oracle_dims(c, out):
     n = c["n"]
     if n < 3 or n % 3 != 0:
         return []                    # not a whole, positive number of three-board units: nothing is promised
-    if n >= 3 * 2 ** 52:
-        return []                    # beyond the stated bound of the float square root (see assumptions)
+    if n >= 3 * 2 ** 100:
+        return []                    # far beyond any machine; float(k) stops being usable (see assumptions)
     if out[0] == "hang":
         return [("std_dims", "standard_system_dimensions(%d) did not return" % n)]
     a, b = squarest_pair(n // 3)
@@ -327,6 +327,48 @@ def oracle_threads(c, out):
     return bad
 
 
+def gen_narrow(rng, tier):
+    """numpy signed integer scalars as arguments, values near the dtype's limit.  Domain (checked on the
+    unchanged code): every argument fits the dtype and is not negative; for spinn5_eth_coords width + 11,
+    height + 11 and (height rounded up to 12) - 4 + root_y fit (root_y is not reduced mod 12 by the source);
+    for standard_system_dimensions the result fits.  Unsigned dtypes are outside: numpy 2
+    raises OverflowError / wraps as soon as an offset is negative."""
+    cs = []
+    for dt, top in (("int8", 127), ("int16", 32767), ("int32", 2 ** 31 - 1), ("int64", 2 ** 63 - 1)):
+        for _ in range(60 if tier != "quick" else 14):
+            w, h = rng.choice([(top - top % 12, top - top % 12), (top, top), (top - rng.randrange(30), top - rng.randrange(30))])
+            x, y = rng.randint(max(0, w - 30), w - 1), rng.randint(max(0, h - 30), h - 1)
+            rx, ry = rng.choice([(0, 0), (rng.randrange(12), rng.randrange(12)), (rng.randint(0, top), rng.randint(0, top)),
+                                 (top, top)])
+            cs.append(dict(k="point", f="local", args=[x, y, w, h, rx, ry], dtype=dt, cls="narrow-dtype"))
+            cs.append(dict(k="point", f="chip", args=[x, y, rx, ry], dtype=dt, cls="narrow-dtype"))
+            cs.append(dict(k="point", f="chip", args=[top - rng.randrange(12), top - rng.randrange(12), rx, ry], dtype=dt,
+                           cls="narrow-dtype"))
+            cs.append(dict(k="point", f="fpga", args=[top - rng.randrange(12), top - rng.randrange(12), rng.randrange(6), rx, ry],
+                           dtype=dt, cls="narrow-dtype"))
+        for w, h in ((24, 12), (108, 96), (116, 116), (100, 37)):
+            cs.append(dict(k="point", f="eth", args=[w, h, rng.randrange(12), rng.randrange(12)], dtype=dt, cls="narrow-dtype"))
+        for k in (1, 2, 4, 6, 9, 12, 16, 20, 25, 30, 36, 42):
+            cs.append(dict(k="dims", n=3 * k, dtype=dt, cls="narrow-dtype"))
+    cs.append(dict(k="machine", w=120, h=120, rx=3, ry=5, dtype="int8", cls="narrow-dtype-machine"))
+    cs.append(dict(k="machine", w=127, h=40, rx=0, ry=0, dtype="int8", cls="narrow-dtype-machine"))
+    cs.append(dict(k="machine", w=24, h=36, rx=7, ry=2, dtype="int16", cls="narrow-dtype-machine"))
+    return cs
+
+
+def gen_tiny(rng, tier):
+    """Machines smaller than a board (1..6 chips wide and high) with every root residue.  Only chips whose
+    board's Ethernet chip lies inside the machine are within the property (judged); all are compared with
+    the model."""
+    roots = [(rx, ry) for rx in range(12) for ry in range(12)]
+    cs = []
+    for w in range(1, 7):
+        for h in range(1, 7):
+            for rx, ry in (roots if tier != "quick" else rng.sample(roots, 20) + [(1, 0), (0, 1)]):
+                cs.append(dict(k="machine", w=w, h=h, rx=rx, ry=ry, cls="tiny-machine"))
+    return cs
+
+
 def gen_histories(rng, tier):
     """Sequences of calls in one interpreter: generators of spinn5_eth_coords cut at every position, `in`
     tests, search loops with break, interleaved live generators with equal and different arguments, each
@@ -426,6 +468,8 @@ def gen_cases(rng, tier):
             else:
                 rx, ry = rng.randint(-30, 60), rng.randint(-30, 60)
             cases.append(dict(k="machine", w=w, h=h, rx=rx, ry=ry, cls="ragged"))
+    cases += gen_narrow(rng, tier)
+    cases += gen_tiny(rng, tier)
     th = gen_threads(rng, tier)
     cases += th
     cases += [dict(k="point", f=f, args=a, cls="point") for mine in th[0]["calls"] for f, a, e in mine]   # model too
@@ -471,6 +515,15 @@ def gen_cases(rng, tier):
         m = max(m, 2)
         for k in (m * m, m * (m + 1), m * (m - 1)):    # all have a divisor close to sqrt(k): short loops
             ns.append(3 * k)
+    # big board counts (beyond 2^53 a float cannot hold num_boards or num_boards // 3 exactly): products of
+    # two near-equal large factors, so that the loop is short
+    ns += [3 * (2 ** 27 + 1) * (2 ** 27 + 3), 3 * 2 ** 60, 3 * 2 ** 62,
+           3 * (3 ** 17) * (3 ** 17 + 2)]
+    for lo, hi in ((2 ** 26, 2 ** 28), (2 ** 28, 2 ** 34), (2 ** 34, 2 ** 46), (2 ** 46, 2 ** 49)):
+        for _ in range(40 if big else 8):
+            m = rng.randint(lo, hi) | 1
+            for k in (m * m, m * (m + 1), m * (m + 2), m * (m - 2), m * (m + rng.randint(3, 40))):
+                ns.append(3 * k)
     ns.append(3 * 2 ** 1100)                           # float(k) overflows: OverflowError
     for n in ns:
         # the model's loop counter is a unary number: beyond k = 10^9 only the oracle judges the code
@@ -495,7 +548,11 @@ def coq_expr(c, out):
                 % (zlit(c["w"]), zlit(c["h"]), zlit(c["rx"]), zlit(c["ry"]),
                    zlit(c["w"]), zlit(c["h"]), zlit(c["rx"]), zlit(c["ry"])))
     if c["k"] == "dims":
-        return "standard_system_dimensions_f %s" % zlit(c["n"])     # the binary64 model of the code
+        if abs(c["n"]) <= 3 * 10 ** 9 or c["n"] >= 2 ** 1030:
+            return "standard_system_dimensions_f %s" % zlit(c["n"])     # the binary64 model of the code
+        # the same model with the budgeted loop (C19_standard_dims_f_gas_correct): the unary counter of the
+        # plain model cannot be built for square roots of this size
+        return "standard_system_dimensions_f_gas 5000 %s" % zlit(c["n"])
     fn = dict(local="spinn5_local_eth_coord", chip="spinn5_chip_coord", fpga="spinn5_fpga_link",
               eth="spinn5_eth_coords")[c["f"]]
     return "%s %s" % (fn, " ".join(zlit(a) for a in c["args"]))
@@ -551,6 +608,12 @@ def run(chk, args):
         "binary64 model is compared with the code for every board count 3k, k <= %s, and the code is judged by exact "
         "integer arithmetic for every k <= %s and for perfect squares and their neighbours up to 2^52 (sampled)"
         % (("30000", "10^6") if chk.tier != "quick" else ("400", "60000")),
+        "numpy signed integer scalars are accepted as arguments where every argument is non-negative and fits the dtype "
+        "(and, for spinn5_eth_coords, width + 11, height + 11 and the unreduced root_y plus the rounded height fit; for "
+        "standard_system_dimensions the result fits): there C19_*_steps_fit shows no fixed-width intermediate of the two "
+        "kernels leaves the dtype; unsigned numpy scalars are outside the domain (numpy 2 raises OverflowError or wraps as "
+        "soon as a table offset is negative); board counts are judged by exact integer arithmetic up to 3 * 2^100 "
+        "(sampled products of near-equal factors), proved up to 3 * 2^52",
         "a machine is either a torus whose width and height are positive multiples of 12, or a ragged machine "
         "in which only boards whose Ethernet chip lies inside the machine are judged for spinn5_local_eth_coord"]
     chk.regenerate(UNITS)
@@ -606,7 +669,7 @@ def run(chk, args):
             nontrivial = True
         else:
             bad = oracle_dims(c, o)
-            nontrivial = 3 <= c["n"] < 3 * 2 ** 52 and c["n"] % 3 == 0
+            nontrivial = 3 <= c["n"] < 3 * 2 ** 100 and c["n"] % 3 == 0
         chk.note_case({k: v for k, v in c.items() if k != "cls"}, nontrivial)
         for key, what in bad:
             if key not in seen:
@@ -629,8 +692,7 @@ def run(chk, args):
                 per = (len(perm) + shards - 1) // shards
                 vals.update(zip(perm, chk.coq_eval(HEADER, [coq_expr(cases[i], outs[i]) for i in perm],
                                                    shard=per, name="machines")))
-            rest = [i for i in range(len(cases)) if cases[i]["k"] in ("point", "dims")
-                    and cases[i].get("cls") != "dims-large"]
+            rest = [i for i in range(len(cases)) if cases[i]["k"] in ("point", "dims")]
             if rest:
                 vals.update(zip(rest, chk.coq_eval(HEADER, [coq_expr(cases[i], outs[i]) for i in rest],
                                                    shard=max(400, (len(rest) + 23) // 24), name="calls")))
@@ -641,6 +703,13 @@ def run(chk, args):
                 def op_expr(op):
                     if op[0] in ("eth_next", "eth_drain"):      # judged against the list of their eth_open
                         return "spinn5_eth_coords 0 0 0 0"
+                    if op[0] == "eth_in":                       # the model's `in`, and the list for the judge
+                        return "(eth_coords_contains (%s, %s) %s, spinn5_eth_coords %s)" % (
+                            zlit(op[5]), zlit(op[6]), " ".join(zlit(a) for a in op[1:5]), " ".join(zlit(a) for a in op[1:5]))
+                    if op[0] in ("eth_take", "eth_break"):      # the model's prefix length, and the list
+                        return "(length (eth_coords_take %d %s), spinn5_eth_coords %s)" % (
+                            max(op[5], 1) if op[0] == "eth_break" else op[5],
+                            " ".join(zlit(a) for a in op[1:5]), " ".join(zlit(a) for a in op[1:5]))
                     if op[0].startswith("eth_"):
                         return "spinn5_eth_coords %s" % " ".join(zlit(a) for a in eth_args(op))
                     if op[0] == "dims":
@@ -652,7 +721,16 @@ def run(chk, args):
                 for i in sorted(set(i for i, _ in hops)):
                     c, o = cases[i], outs[i]
                     chk.traces_validated += 1
-                    diffs = judge_history(c, o, lambda j: [list(p) for p in hv[(i, j)]])
+                    def model_list(j):
+                        v = hv[(i, j)]
+                        return [list(p) for p in (v[1] if isinstance(v, tuple) else v)]
+                    diffs = judge_history(c, o, model_list)
+                    for j, (op, r) in enumerate(zip(c["ops"], o[1])):
+                        if op[0] in ("eth_in", "eth_take", "eth_break") and r[0] == "ok":
+                            mine = r[1] if op[0] == "eth_in" else len(r[1])
+                            if hv[(i, j)][0] != mine:
+                                diffs.append(("history", "%r (operation %d of %r): model %r, implementation %r"
+                                              % (op, j, c["ops"][:j + 1], hv[(i, j)][0], mine)))
                     for j, (op, r) in enumerate(zip(c["ops"], o[1])):
                         if not op[0].startswith("eth_"):
                             sub = dict(k="dims", n=op[1]) if op[0] == "dims" else dict(k="point", f=op[0], args=op[1:])
